@@ -384,8 +384,8 @@ Section WithOracle.
     upstream_headers c (not_forwarded h) = spec_upstream_untrusted c h.
   Proof.
     unfold upstream_headers, spec_upstream_untrusted, forwarded_elem, set_hdr.
-    rewrite !get_not_forwarded by reflexivity. rewrite cleared_not_forwarded.
-    cbn [nonempty String.eqb negb orb]. rewrite del_not_forwarded by reflexivity. reflexivity.
+    rewrite !get_not_forwarded by reflexivity. rewrite !values_not_forwarded by reflexivity. rewrite cleared_not_forwarded.
+    cbn [join nonempty String.eqb negb orb]. rewrite del_not_forwarded by reflexivity. reflexivity.
   Qed.
 
   Theorem untrusted_not_passed_on fixed es peer c h :
@@ -620,8 +620,8 @@ Qed.
 Definition composed_forwarding (c : conn) (h : hdrs) : hdrs :=
   let xfh := get XFH h in
   let xfp := get XFP h in
-  let xff := get XFF h in
-  let fw := get FWD h in
+  let xff := join ", " (values XFF h) in
+  let fw := join ", " (values FWD h) in
   if nonempty xff || nonempty xfp || nonempty xfh then
     [ (XFF, http_trim (if nonempty xff then xff ++ ", " ++ c_peer c else c_peer c));
       (XFP, http_trim (if nonempty xfp then xfp else actual_scheme c));
@@ -676,7 +676,7 @@ Theorem upstream_forwarding_is_composed c h k :
   values k (upstream_headers c h) = values k (composed_forwarding c h).
 Proof.
   intro Hk. unfold upstream_headers, composed_forwarding.
-  destruct (nonempty (get XFF h) || nonempty (get XFP h) || nonempty (get XFH h)).
+  destruct (nonempty (join ", " (values XFF h)) || nonempty (get XFP h) || nonempty (get XFH h)).
   - rewrite !values_set, (values_cleared k h Hk). unfold values. cbn [filter map fst snd].
     rewrite !(String.eqb_sym _ k).
     destruct (String.eqb k XFH) eqn:E1; destruct (String.eqb k XFP) eqn:E2; destruct (String.eqb k XFF) eqn:E3;
